@@ -91,7 +91,7 @@ func zz5RefHeader(pcode int64, oid, okind, onode int32, time int64) []byte {
 	if okind == 0 && onode == 0 {
 		return zz5Cat(zz5Dec(pcode), zz5I32(oid), zz5I64(time))
 	}
-	return zz5Cat([]byte{9}, zz5Dec(pcode), zz5I32(oid), zz5I32(okind), zz5I32(onode), zz5I64(time))
+	return zz5Cat([]byte{9}, zz5Dec(pcode), zz5I32(oid), zz5I32(onode), zz5I32(okind), zz5I64(time))
 }
 
 // ---------------------------------------------------------------- sections and comparison
